@@ -119,7 +119,7 @@ fn run() {
             if now.duration_since(t) > Duration::from_millis(300) {
                 let c = CERT.lock().unwrap_or_else(|e| e.into_inner()).clone();
                 if let Some(c) = c {
-                    let _g = inspect::PROC_LOCK.lock().unwrap_or_else(|e| e.into_inner());
+                    let _g = inspect::try_proc_guard();
                     release_own_ends(&c);
                 }
                 certified_at = Some(now + Duration::from_secs(3600));
@@ -165,7 +165,7 @@ fn subject_cpu_ticks() -> Option<(Vec<i32>, u64)> {
         return None;
     }
     // (opening /proc files creates transient descriptors: never while a descriptor audit is in progress)
-    let _g = inspect::PROC_LOCK.lock().unwrap_or_else(|e| e.into_inner());
+    let _g = inspect::try_proc_guard()?;
     let mut total = 0;
     for tid in &tids {
         let s = std::fs::read_to_string(format!("/proc/self/task/{}/stat", tid)).ok()?;
